@@ -2,6 +2,7 @@ import VerifModel.Driver.Cmp
 import VerifModel.Driver.Cont
 import VerifModel.Driver.Det
 import VerifModel.Driver.Data
+import VerifModel.Driver.ClimExtra
 import VerifModel.Driver.Clean
 import VerifModel.Driver.Agg
 import VerifModel.Driver.Scripts
@@ -26,7 +27,7 @@ import VerifModel.Driver.GenMore
 open VerifModel
 
 def handlers : List (List String → Option String) :=
-  [Driver.Cmp.handle, Driver.Cont.handle, Driver.Det.handle, Driver.Data.handle, Driver.Clean.handle, Driver.Agg.handle, Driver.Scripts.handle, Driver.Axis.handle, Driver.Output.handle, Driver.Text.handle, Driver.Args.handle, Driver.Diagram.handle, Driver.Nc.handle, Driver.Fig.handle, Driver.Prob.handle, Driver.Dispatch.handle, Driver.DiagramViews.handle, Driver.Multi.handle, Driver.ListOutput.handle, Driver.ArgsData.handle, Driver.GenMore.handle]
+  [Driver.Cmp.handle, Driver.Cont.handle, Driver.Det.handle, Driver.Data.handle, Driver.Clean.handle, Driver.Agg.handle, Driver.Scripts.handle, Driver.Axis.handle, Driver.Output.handle, Driver.Text.handle, Driver.Args.handle, Driver.Diagram.handle, Driver.Nc.handle, Driver.Fig.handle, Driver.Prob.handle, Driver.Dispatch.handle, Driver.DiagramViews.handle, Driver.Multi.handle, Driver.ListOutput.handle, Driver.ArgsData.handle, Driver.GenMore.handle, Driver.ClimExtra.handle]
 
 def step (line : String) : String :=
   let args := (line.trimAscii.toString.splitOn " ").filter (· ≠ "")
